@@ -24,7 +24,6 @@ var trustedIndex = map[string]string{
 	"(*Sources).UnmarshalBinary: (*a)[i]":                     "*a is made with len(pb.GetItems()) and i ranges over pb.GetItems()",
 	"matchRegex: concat[i * len(vals) + j]":                   "concat is made with len(names)*len(vals); i ranges over names and j over vals",
 	"matchRegex: re.Rune[i + 1]":                              "regexp/syntax contract: OpCharClass Rune holds lo,hi pairs (even length); loop steps by 2",
-	"matchRegex: re.Rune[i]":                                  "loop condition i < len(re.Rune)",
 	"matchRegex: re.Sub[0]":                                   "regexp/syntax contract: OpCapture has exactly one sub-expression; OpConcat/OpAlternate after Simplify have >= 2",
 	"matchRegex: re.Sub[1:]":                                  "regexp/syntax contract: OpConcat has >= 2 sub-expressions",
 	"(*SelectStatement).ColumnNames: columnNames[0]":          "columnNames has len(columnFields)+offset entries and offset is 1 under the same !s.OmitTime test",
@@ -40,10 +39,7 @@ var trustedIndex = map[string]string{
 	"(*Parser).parseCreateSubscriptionStatement: tokens[tok]": "tok is a Token constant returned by the scanner",
 	"(*Parser).parseTokens: tokens[expected]":                 "expected ranges over Token constants supplied by callers",
 	"ParseDuration: a[i]":                                     "guarded by i < len(a) / i >= len(a) return on every path (value-level, confirmed by reading)",
-	"ParseDuration: a[i + 1]":                                 "guarded by i+1 < len(a) in the same condition",
 	"ParseDuration: a[start:i]":                               "start <= i <= len(a) by the digit loop",
-	"ParseDuration: a[i:i + 2]":                               "guarded by i+1 < len(a)",
-	"(*SelectStatement).RewriteRegexConditions$lit: vals[i]":  "loop condition i < len(vals)",
 }
 
 type totality struct {
@@ -75,6 +71,7 @@ func (t *totality) run() {
 	c.Rule(R("assert"), "every single-result type assertion has an operand whose static or inferred dynamic type set is within the asserted type")
 	c.Rule(R("panics"), "every explicit panic call is unreachable from the public operations: it follows a type switch that covers every implementer of the sealed interface, or is confined to init-time registration or Must* helpers")
 
+	t.negRecursion()
 	ga := p.newGuardAnalysis()
 	pe := ga.pe
 	nBounds, nDiv, nOk := 0, 0, 0
@@ -262,7 +259,7 @@ func (t *totality) index(fb funcBody, e *ast.IndexExpr, f *facts, pe pathEnv) {
 		}
 	}
 	// variable index: idioms
-	if ip, ok := pe.pathOf(e.Index); ok && hasPath {
+	if ip, ok := pe.idxKey(e.Index); ok && hasPath {
 		if f.inRange[ip] == xp {
 			c.OK(rule, key, e.Pos(), "index ranges over the same slice (range key or i < len guard)")
 			return
@@ -324,6 +321,24 @@ func (t *totality) index(fb funcBody, e *ast.IndexExpr, f *facts, pe pathEnv) {
 		if b, ok := p.Info.TypeOf(e.Index).Underlying().(*types.Basic); ok && b.Info()&types.IsInteger != 0 {
 			c.Bad(rule, key, e.Pos(), fmt.Sprintf("a fixed array of %d elements is indexed by input data (%s) with no bound on any path", arrLen, types.ExprString(e.Index)))
 			return
+		}
+	}
+	// guarded against the length of the text the slice was converted from:
+	// []rune(s) is shorter than s as soon as s holds a multi-byte character
+	if ip, ok := pe.idxKey(e.Index); ok && hasPath && t.roots != nil {
+		if r := f.inRange[ip]; r != "" && r != xp {
+			if id := identOf(e.X); id != nil {
+				if def, ok := t.roots.defs[p.Info.ObjectOf(id)]; ok {
+					if call, ok := ast.Unparen(def).(*ast.CallExpr); ok && len(call.Args) == 1 {
+						if tv, ok := p.Info.Types[call.Fun]; ok && tv.IsType() {
+							if ap, ok := pe.pathOf(call.Args[0]); ok && ap == r {
+								c.Bad(rule, key, e.Pos(), fmt.Sprintf("the index is tested against len(%s) but indexes %s, a conversion of it: the two lengths differ as soon as the text holds a multi-byte character, and the index runs past the end", types.ExprString(call.Args[0]), types.ExprString(e.X)))
+								return
+							}
+						}
+					}
+				}
+			}
 		}
 	}
 	c.Unk(rule, key, e.Pos(), "variable index outside the recognised idioms (range key, i < len guard, make(len), modulo len, sort.Interface) and not in the contract table; facts: "+f.String())
@@ -391,10 +406,18 @@ func (t *totality) slice(fb funcBody, e *ast.SliceExpr, f *facts, pe pathEnv) {
 			if ip, ok := pe.pathOf(b); ok && f.inRange[ip] == xp {
 				return true, true
 			}
+			if ip, ok := pe.pathOf(b); ok && f.inRange[ip+"+1"] == xp {
+				return true, true // i <= i+1 < len
+			}
 			if be, ok := ast.Unparen(b).(*ast.BinaryExpr); ok && be.Op == token.ADD {
 				if k, isC := pe.constInt(be.Y); isC && k == 1 {
 					if ip, ok := pe.pathOf(be.X); ok && f.inRange[ip] == xp {
 						return true, true // i+1 <= len
+					}
+				}
+				if k, isC := pe.constInt(be.Y); isC && k >= 2 && k <= 5 {
+					if ip, ok := pe.pathOf(be.X); ok && f.inRange[fmt.Sprintf("%s+%d", ip, k-1)] == xp {
+						return true, true // i+k-1 < len, so i+k <= len
 					}
 				}
 			}
@@ -402,7 +425,7 @@ func (t *totality) slice(fb funcBody, e *ast.SliceExpr, f *facts, pe pathEnv) {
 		}
 		okLo, varLo := inRangeBound(e.Low)
 		okHi, varHi := inRangeBound(e.High)
-		if okLo && okHi && (varLo != varHi) { // exactly one variable bound, the other absent
+		if okLo && okHi && (varLo || varHi) { // each present bound is in range of this slice
 			c.OK(rule, key, e.Pos(), "bound is i or i+1 with 0 <= i < len("+types.ExprString(e.X)+") on every path")
 			return
 		}
@@ -514,4 +537,56 @@ func (p *Program) tokenValuesClosed() bool {
 		}
 	}
 	return true
+}
+
+// negRecursion: a function that calls itself on the negation of its own signed
+// integer parameter never returns for the most negative value (-MinInt64 ==
+// MinInt64), whatever sign test guards the call.
+func (t *totality) negRecursion() {
+	c, p := t.c, t.c.P
+	rule := t.prop + ".recursion"
+	c.Rule(rule, "no function in scope calls itself with the negation of one of its own signed integer parameters: the most negative value is its own negation, so the recursion never ends (stack exhaustion is not an error value)")
+	n, bad := 0, 0
+	for _, fb := range p.funcBodies() {
+		if fb.Lit != nil || !t.inScope(fb) {
+			continue
+		}
+		fb := fb
+		fd := p.FuncDecls[fb.Decl]
+		if fd == nil || fd.Type.Params == nil {
+			continue
+		}
+		params := map[types.Object]bool{}
+		for _, f := range fd.Type.Params.List {
+			for _, nm := range f.Names {
+				if o := p.Info.Defs[nm]; o != nil {
+					if b, ok := o.Type().Underlying().(*types.Basic); ok && b.Info()&types.IsInteger != 0 && b.Info()&types.IsUnsigned == 0 {
+						params[o] = true
+					}
+				}
+			}
+		}
+		ast.Inspect(fb.Body, func(nd ast.Node) bool {
+			call, ok := nd.(*ast.CallExpr)
+			if !ok {
+				return true
+			}
+			if callee, _ := typeutil.Callee(p.Info, call).(*types.Func); callee != fb.Decl {
+				return true
+			}
+			n++
+			for _, a := range call.Args {
+				u, ok := ast.Unparen(a).(*ast.UnaryExpr)
+				if !ok || u.Op != token.SUB {
+					continue
+				}
+				if id := identOf(u.X); id != nil && params[p.Info.ObjectOf(id)] {
+					bad++
+					c.Bad(rule, fb.Name+": calls itself with -"+id.Name, call.Pos(), "for the most negative "+p.TypeStr(p.Info.TypeOf(id))+" the argument equals the parameter: the recursion does not end and the process dies of stack exhaustion")
+				}
+			}
+			return true
+		})
+	}
+	c.OK(rule, "self-calls examined", 0, fmt.Sprintf("%d direct self-calls in scope, %d on a negated parameter", n, bad))
 }
